@@ -40,6 +40,8 @@ pub fn div_nxm_normalized(numerator: &mut [u64], divisor: &[u64]) {
 
         // Overflow case
         if unlikely(n21 == d) {
+            #[cfg(recmo_uint_verif)]
+            crate::verif_hooks::hit(crate::verif_hooks::Hook::knuth_norm_forced_digit);
             let q = u64::MAX;
             let _carry = submul_nx1(&mut numerator[j..j + n], divisor, q);
             numerator[j + n] = q;
@@ -63,6 +65,8 @@ pub fn div_nxm_normalized(numerator: &mut [u64], divisor: &[u64]) {
         // If we have a carry then the quotient was one too large.
         // We correct by decrementing the quotient and adding one divisor back.
         if unlikely(borrow) {
+            #[cfg(recmo_uint_verif)]
+            crate::verif_hooks::hit(crate::verif_hooks::Hook::knuth_norm_add_back);
             q = q.wrapping_sub(1);
             let carry = adc_n(&mut numerator[j..j + n], &divisor[..n], 0);
             // Expect carry because we flip sign back to positive.
@@ -112,6 +116,12 @@ pub fn div_nxm(numerator: &mut [u64], divisor: &mut [u64]) {
     };
     debug_assert!(d >= 1 << 127);
     let v = reciprocal_2(d);
+    #[cfg(recmo_uint_verif)]
+    crate::verif_hooks::hit(if shift == 0 {
+        crate::verif_hooks::Hook::knuth_shift_zero
+    } else {
+        crate::verif_hooks::Hook::knuth_shift_nonzero
+    });
 
     // Compute the quotient one limb at a time.
     let mut q_high = 0;
@@ -140,6 +150,10 @@ pub fn div_nxm(numerator: &mut [u64], divisor: &mut [u64]) {
             // two remainder limbs.
             let (mut q, r) = div_3x2(n21, n0, d, v);
 
+            #[cfg(recmo_uint_verif)]
+            if q == 0 {
+                crate::verif_hooks::hit(crate::verif_hooks::Hook::knuth_q_zero);
+            }
             if q != 0 {
                 // Subtract the quotient times the divisor from the remainder.
                 // We already have the highest 128 bit, so we can reduce the
@@ -162,6 +176,8 @@ pub fn div_nxm(numerator: &mut [u64], divisor: &mut [u64]) {
                 // If we have a carry then the quotient was one too large.
                 // We correct by decrementing the quotient and adding one divisor back.
                 if unlikely(borrow) {
+                    #[cfg(recmo_uint_verif)]
+                    crate::verif_hooks::hit(crate::verif_hooks::Hook::knuth_add_back);
                     q = q.wrapping_sub(1);
                     let carry = adc_n(&mut numerator[j..j + n], &divisor[..n], 0);
                     // Expect carry because we flip sign back to positive.
@@ -172,6 +188,8 @@ pub fn div_nxm(numerator: &mut [u64], divisor: &mut [u64]) {
         } else {
             // Overflow case
             let q = u64::MAX;
+            #[cfg(recmo_uint_verif)]
+            crate::verif_hooks::hit(crate::verif_hooks::Hook::knuth_forced_digit);
             let _carry = submul_nx1(&mut numerator[j..j + n], divisor, q);
             q
         };
@@ -180,6 +198,8 @@ pub fn div_nxm(numerator: &mut [u64], divisor: &mut [u64]) {
         if j + n < numerator.len() {
             numerator[j + n] = q;
         } else {
+            #[cfg(recmo_uint_verif)]
+            crate::verif_hooks::hit(crate::verif_hooks::Hook::knuth_q_high);
             q_high = q;
         }
     }
